@@ -245,8 +245,26 @@ def gen_samples(rng, N, lo, hi, cls):
     return S
 
 
+OOS_CLASSES = ["oos_nan_target", "oos_nan_sample", "oos_overflow"]
+
+
+def gen_case0(rng, k):
+    """N = 0 (QEF<0>, instantiated by the simplex tree for cell corners): only distance values"""
+    m = rng.choice([0, 1, 1, 2, 3, 6])
+    samples = [([], [], rng.choice([0.0, rng.uniform(-2, 2), lattice(rng, rng.uniform(-2, 2))])) for _ in range(m)]
+    target = None if rng.random() < 0.6 else ([], rng.uniform(-1, 1))
+    perms = [list(reversed(range(m)))] if m >= 2 else []
+    return {"id": str(k), "N": 0, "lo": [], "hi": [], "shrink": rng.choice([1 - 1e-9, 1.0, 0.5]), "target": target,
+            "samples": samples, "perms": perms, "splits": [rng.randint(0, m)] if m else [], "cls": "dim0",
+            "boxcls": "none"}
+
+
 def gen_case(rng, k, tier):
-    N = rng.choice([1, 2, 2, 3, 3, 3])
+    N = rng.choice([0, 1, 1, 1, 2, 2, 2, 3, 3, 3, 3])
+    if N == 0:
+        return gen_case0(rng, k)
+    if rng.random() < 0.03:
+        return gen_oos(rng, k, N, tier)
     boxcls, lo, hi = gen_box(rng, N, tier)
     cls = weighted(rng, SAMPLE_CLASSES_THOROUGH if tier == "thorough" else SAMPLE_CLASSES_QUICK)
     samples = gen_samples(rng, N, lo, hi, cls)
@@ -273,6 +291,39 @@ def gen_case(rng, k, tier):
             "perms": perms, "splits": splits, "cls": cls, "boxcls": boxcls}
 
 
+def gen_oos(rng, k, N, tier):
+    """Inputs OUTSIDE the property's quantifier (non-finite target, non-finite sample position or
+    value, magnitudes that overflow): only observed — this is exactly where the hypothesis of
+    `qef_solveBounded_in_box` ("some corner error compares < +inf") can fail."""
+    boxcls, lo, hi = gen_box(rng, N, tier)
+    cls = rng.choice(OOS_CLASSES)
+    samples = gen_samples(rng, N, lo, hi, "vertex")
+    target = None
+    bad = lambda: rng.choice([NAN, INF, -INF])
+    if cls == "oos_nan_target":
+        tpos = goal_point(rng, lo, hi)
+        tval = 0.0
+        if rng.random() < 0.6:
+            tval = bad()
+        else:
+            tpos[rng.randrange(N)] = bad()
+        target = (tpos, tval)
+    elif cls == "oos_nan_sample":
+        i = rng.randrange(len(samples))
+        p, n, v = samples[i]
+        p = list(p)
+        if rng.random() < 0.5:
+            v = bad()
+        else:
+            p[rng.randrange(N)] = bad()
+        samples[i] = (p, n, v)
+    else:
+        sc = 10.0 ** rng.uniform(150, 300)
+        samples = [(p, n, v * sc + sc) for (p, n, v) in samples]
+    return {"id": str(k), "N": N, "lo": lo, "hi": hi, "shrink": rng.choice([1 - 1e-9, 1.0]), "target": target,
+            "samples": samples, "perms": [], "splits": [], "cls": cls, "boxcls": boxcls, "oos": True}
+
+
 def fixed_cases():
     """Deterministic cases run before the random ones: empty QEFs (0 samples) in every dimension
     with the origin inside / outside the box, and the systems of libfive/test/qef.cpp."""
@@ -288,6 +339,9 @@ def fixed_cases():
         add("empty-origin-inside-%d" % N, N, [-1.0] * N, [2.0] * N, [])
         add("empty-explicit-target-%d" % N, N, [1.0] * N, [2.0] * N, [], target=([1.25] * N, 0.0))
         add("empty-shrink1-%d" % N, N, [1.0] * N, [2.0] * N, [], shrink=1.0)
+    add("dim0-empty", 0, [], [], [])
+    add("dim0-two-values", 0, [], [], [([], [], 1.0), ([], [], 3.0)])
+    add("dim0-explicit-target", 0, [], [], [([], [], 1.0)], target=([], 5.0))
     # test/qef.cpp "Underconstrained (flat surface)": f = x on [0,1]^2 corners
     flat = [([0.0, 0.0], [1.0, 0.0], 0.0), ([1.0, 0.0], [1.0, 0.0], 1.0),
             ([0.0, 1.0], [1.0, 0.0], 0.0), ([1.0, 1.0], [1.0, 0.0], 1.0)]
